@@ -32,8 +32,8 @@ if [ -n "$WATCH" ]; then if [ -e "$RV_TOP/$WATCH" ]; then redo-ifchange "$RV_TOP
 echo "W+ $NAME $$" >&9
 [ -z "$SLEEP" ] || sleep $SLEEP
 echo "W- $NAME $$" >&9
-if [ -n "$FLAG" ] && [ "$(cat "$1.flag")" = 1 ]; then echo "E $NAME $$ 7" >&9; exit 7; fi
-if [ -e "$1.hfail" ]; then echo "E $NAME $$ 8" >&9; exit 8; fi
+if [ -n "$FLAG" ] && [ "$(cat "$1.flag")" = 1 ]; then [ -z "$SCRIBBLE" ] || [ ! -e "$1" ] || echo "left by a failing script" >> "$1"; echo "E $NAME $$ 7" >&9; exit 7; fi
+if [ -e "$1.hfail" ]; then [ -z "$SCRIBBLE" ] || [ ! -e "$1" ] || echo "left by a failing script" >> "$1"; echo "E $NAME $$ 8" >&9; exit 8; fi
 if [ -z "$PHONY" ]; then
   {
     echo "T $NAME $WHO"
@@ -84,7 +84,7 @@ class Program:
 
     def shape(self):
         """Canonical description of the graph that ignores names' incidental numbering as little as needed."""
-        return [(n, sorted(k for k in ('stamp', 'always', 'head', 'phony', 'dyn', 'split', 'alias', 'linkout') if t.get(k)) +
+        return [(n, sorted(k for k in ('stamp', 'always', 'head', 'phony', 'dyn', 'split', 'alias', 'linkout', 'scribble') if t.get(k)) +
                  (['flag'] if t.get('flag') is not None else []) + (['watch'] if t.get('watch') else []) +
                  (['opt'] if t.get('opt') else []), sorted(t['deps'])) for n, t in sorted(self.targets.items())]
 
@@ -201,7 +201,7 @@ class Program:
         t = self.targets[name]
         lines = ["NAME='%s'" % name, "DEPS='%s'" % ' '.join(t['deps'])]
         for k, var in (('dyn', 'DYN'), ('stamp', 'STAMP'), ('always', 'ALWAYS'), ('head', 'HEAD'),
-                       ('phony', 'PHONY'), ('split', 'SPLIT'), ('alias', 'ALIAS'), ('linkout', 'LINKOUT')):
+                       ('phony', 'PHONY'), ('split', 'SPLIT'), ('alias', 'ALIAS'), ('linkout', 'LINKOUT'), ('scribble', 'SCRIBBLE')):
             lines.append("%s=%s" % (var, '1' if t.get(k) else ''))
         lines.append("FLAG=%s" % ('1' if t.get('flag') is not None else ''))
         lines.append("WATCH='%s'" % (t.get('watch') or ''))
